@@ -416,8 +416,9 @@ func (c *DefaultCtx) Cookie(cookie *Cookie) {
 	fcookie.SetValue(removeNewLines(cookie.Value))
 	fcookie.SetPath(removeNewLines(cookie.Path))
 	if p := fcookie.Path(); bytes.IndexByte(p, '\r') != -1 || bytes.IndexByte(p, '\n') != -1 {
-		// fasthttp percent-decodes the path: "%0d%0a" became a line break
-		fcookie.SetPath(removeNewLines(string(p)))
+		// fasthttp percent-decodes the path: "%0d%0a" became a line break. Setting the cleaned path decodes
+		// once more ("%250a" would turn into a line break now), so keep every remaining '%' literal
+		fcookie.SetPath(strings.ReplaceAll(removeNewLines(string(p)), "%", "%25"))
 	}
 	fcookie.SetDomain(removeNewLines(cookie.Domain))
 	// only set max age and expiry when SessionOnly is false
